@@ -3,7 +3,9 @@ package world
 import (
 	"context"
 	"fmt"
+	"runtime/debug"
 	"sort"
+	"strings"
 	"sync"
 	"time"
 
@@ -200,7 +202,7 @@ func (w *World) StartSetRaw(name string, req *gnmi.SetRequest, md map[string]str
 		defer func() {
 			if r := recover(); r != nil {
 				h.mu.Lock()
-				h.fin, h.OK, h.Code, h.Msg = true, false, -1, fmt.Sprint("panic: ", r)
+				h.fin, h.OK, h.Code, h.Msg = true, false, -1, fmt.Sprint("panic: ", r, " @ ", panicSite())
 				h.mu.Unlock()
 			}
 		}()
@@ -216,6 +218,23 @@ func (w *World) StartSetRaw(name string, req *gnmi.SetRequest, md map[string]str
 		h.OK = true
 	})
 	return h, err
+}
+
+func panicSite() string {
+	var out []string
+	for _, l := range strings.Split(string(debug.Stack()), "\n") {
+		if strings.Contains(l, "/repo/pkg/") {
+			l = strings.TrimSpace(l)
+			if i := strings.Index(l, " +0x"); i > 0 {
+				l = l[:i]
+			}
+			out = append(out, strings.TrimPrefix(l, "/repo/"))
+			if len(out) == 3 {
+				break
+			}
+		}
+	}
+	return strings.Join(out, " < ")
 }
 
 // Outcome reports what a handler answered so far.
